@@ -11,8 +11,10 @@ The pool is a labelled transition system whose atomic steps are the critical sec
 * writer steps   — `take` (`queue.WaitOne` returns the head of the buffer), `complete` (`MsgSend`
   returns, with nil or an error), `ctxClose` (`WaitOne` observes the cancelled peer context);
 * environment    — `readClose` (the read loop ends → `streamClose`), `cancel`, `setGated`,
-  `poolRemove` (`streamPool.removeStream`, the critical section that cleans the three indexes; it
-  is run by whichever party won `closed.Swap(true)`), dial-pool worker steps.
+  `closeRemote` (the `stream.Close()` call of `streamClose` returns — it may take arbitrarily long
+  or never happen; it is made by the goroutine that won `closed.Swap(true)` and holds NO pool
+  lock), `poolRemove` (`streamPool.removeStream`, the critical section under `s.mu` that cleans the
+  three indexes; it runs after `Close()` returned), dial-pool worker steps.
 
 The three indexes `streams`, `streamIdsByPeer`, `streamIdsByTag` are three *independent* data
 structures exactly as in Go; that they describe one relation is a theorem (Props/C19), not a
@@ -66,6 +68,8 @@ structure Stream where
   cancelled : Bool := false       -- peer context cancelled
   closed    : Bool := false       -- `closed.Swap(true)` happened (queue closed, remote closed)
   removed   : Bool := false       -- `removeStream` finished
+  closeBlocks : Bool := false     -- remote behaviour: `stream.Close()` parks until released
+  remoteClosed : Bool := false    -- `stream.Close()` (called by `streamClose`, outside the pool lock) returned
   writerDone : Bool := false      -- `writeLoop` returned
 deriving Repr, DecidableEq, Inhabited
 
@@ -110,6 +114,10 @@ def Stream.ctxCloseStep (s : Stream) : Stream :=
 def Stream.writerExitStep (s : Stream) : Stream :=
   if s.writerDone ∨ s.inflight.isSome ∨ s.cancelled ∨ !s.closed ∨ s.queue ≠ [] then s
   else { s with writerDone := true }
+
+/-- `stream.Close()` returns to the goroutine running `streamClose` -/
+def Stream.closeRemoteStep (s : Stream) : Stream :=
+  if s.closed ∧ !s.remoteClosed then { s with remoteClosed := true } else s
 
 /-! ## pool -/
 
@@ -341,12 +349,25 @@ def Pool.setGated (p : Pool) (sid : Nat) (b : Bool) : Pool × Res :=
   | none => (p, .disabled)
   | some _ => ({ p with objs := modObj p.objs sid (fun s => { s with gated := b }) }, .ok)
 
-/-- `streamPool.removeStream(streamId)` -/
+def Pool.setCloseBlocks (p : Pool) (sid : Nat) (b : Bool) : Pool × Res :=
+  match getObj p.objs sid with
+  | none => (p, .disabled)
+  | some _ => ({ p with objs := modObj p.objs sid (fun s => { s with closeBlocks := b }) }, .ok)
+
+/-- `stream.Close()` returns (possibly much later than it was called, possibly never) -/
+def Pool.closeRemote (p : Pool) (sid : Nat) : Pool × Res :=
+  match getObj p.objs sid with
+  | none => (p, .disabled)
+  | some s =>
+    if s.closeRemoteStep = s then (p, .disabled)
+    else ({ p with objs := modObj p.objs sid Stream.closeRemoteStep }, .ok)
+
+/-- `streamPool.removeStream(streamId)`: called by `streamClose` after `stream.Close()` returned -/
 def Pool.poolRemove (p : Pool) (sid : Nat) : Pool × Res :=
   match getObj p.objs sid with
   | none => (p, .disabled)
   | some s =>
-    if !s.closed ∨ s.removed then (p, .disabled)
+    if !s.closed ∨ !s.remoteClosed ∨ s.removed then (p, .disabled)
     else if sid ∉ p.streams then
       ({ p with fatal := true, objs := modObj p.objs sid (fun s => { s with removed := true }) }, .ok)
     else
@@ -431,6 +452,8 @@ inductive Step where
   | readClose (sid : Nat)
   | cancel (sid : Nat)
   | setGated (sid : Nat) (b : Bool)
+  | setCloseBlocks (sid : Nat) (b : Bool)
+  | closeRemote (sid : Nat)
   | poolRemove (sid : Nat)
   | dialTake
   | dialRun (tid : Nat)
@@ -455,6 +478,8 @@ def step (p : Pool) : Step → Pool × Res
   | .readClose sid => p.readClose sid
   | .cancel sid => p.cancel sid
   | .setGated sid b => p.setGated sid b
+  | .setCloseBlocks sid b => p.setCloseBlocks sid b
+  | .closeRemote sid => p.closeRemote sid
   | .poolRemove sid => p.poolRemove sid
   | .dialTake => p.dialTake
   | .dialRun tid => p.dialRun tid
@@ -491,7 +516,8 @@ def Pool.sendById (p : Pool) (m : Nat) (peers : List Nat) : Pool × Res :=
 
 /-- the internal step (if any) that object `s` can take at quiescence-seeking time -/
 def settleStepOf (s : Stream) : Option Step :=
-  if s.closed ∧ !s.removed then some (.poolRemove s.id)
+  if s.closed ∧ !s.remoteClosed ∧ !s.closeBlocks then some (.closeRemote s.id)
+  else if s.closed ∧ s.remoteClosed ∧ !s.removed then some (.poolRemove s.id)
   else if s.inflight.isSome then
     (if !s.gated ∨ s.closed then some (.complete s.id) else none)
   else if s.writerDone then none
@@ -516,6 +542,39 @@ def Pool.settle (p : Pool) : Nat → Pool
     | some st => Pool.settle (step p st).1 fuel
 
 def Pool.settleFuel (p : Pool) : Nat :=
-  4 * ((p.objs.map (fun s => s.queue.length + 3)).sum + p.dialBuf.length + 4)
+  4 * ((p.objs.map (fun s => s.queue.length + 4)).sum + p.dialBuf.length + 4)
+
+/-! ## macro steps: a public call runs to completion -/
+
+/-- write `m` to every id in order (`Broadcast` after its snapshot) -/
+def Pool.writeAll (p : Pool) (m : Nat) : List Nat → Pool
+  | [] => p
+  | id :: rest => Pool.writeAll (p.writeTo id m).1 m rest
+
+/-- for every group, write to its streams in order until the first success (`SendById` after its snapshot) -/
+def Pool.writeGroups (p : Pool) (m : Nat) : List (List Nat) → Pool
+  | [] => p
+  | g :: gs => Pool.writeGroups (p.writeFirst m g) m gs
+
+/-- `Broadcast` run to completion without interleaving -/
+def Pool.broadcastNow (p : Pool) (m : Nat) (tags : List Nat) : Pool := p.writeAll m (p.broadcastIds tags)
+
+/-- `SendById` run to completion without interleaving -/
+def Pool.sendByIdNow (p : Pool) (m : Nat) (peers : List Nat) : Pool × Res :=
+  (p.writeGroups m (p.sendByIdGroups peers), if p.sendByIdGroups peers = [] then .errUnable else .ok)
+
+inductive MStep where
+  | atom (st : Step)
+  | broadcast (m : Nat) (tags : List Nat)
+  | sendById (m : Nat) (peers : List Nat)
+deriving Repr, DecidableEq
+
+def mstep (p : Pool) : MStep → Pool
+  | .atom st => (step p st).1
+  | .broadcast m tags => p.broadcastNow m tags
+  | .sendById m peers => (p.sendByIdNow m peers).1
+
+def mrun (p : Pool) (σ : List MStep) : Pool := σ.foldl mstep p
+
 
 end AnySync.StreamPool
